@@ -1,0 +1,26 @@
+//go:build verif
+// +build verif
+
+package types
+
+import (
+	"runtime"
+
+	"github.com/ethereum/go-ethereum/core/types"
+)
+
+// VerifLightPoW returns the ethash mix digest and result of header for the nonce it carries, computed
+// with the engine's light verification cache exactly the way VerifySeal computes them. Verification
+// hook (build tag verif only): the monitors use it to build headers whose mix digest is genuine but
+// whose proof of work misses the target.
+func (ethash *Ethash) VerifLightPoW(header *types.Header) (digest []byte, result []byte) {
+	number := header.Number.Uint64()
+	cache := ethash.cache(number)
+	size := datasetSize(number)
+	if ethash.config.PowMode == ModeTest {
+		size = 32 * 1024
+	}
+	digest, result = hashimotoLight(size, cache.cache, ethash.SealHash(header).Bytes(), header.Nonce.Uint64())
+	runtime.KeepAlive(cache)
+	return digest, result
+}
